@@ -224,7 +224,7 @@ class Sim:
         self._in_update = False
         self.create_attempts = 0
         self.max_updates = scn.get("max_updates", 400)
-        self.max_screen = scn.get("max_screen_iters", 20000)
+        self.max_screen = scn.get("max_screen_iters", 4000)
         self.total_screen = 0
         self.psi_init_hook = None
         self.seed_solution = None
@@ -587,6 +587,9 @@ class Sim:
             rec["kernel_out"] = np.array(solver.new_A_induced, copy=True)
             rec["err"] = err
             sim.total_screen += 1
+            if sim.total_screen > sim.max_screen:
+                h.probe("step_cap")
+                raise SimStepCap(f"screening budget exhausted ({sim.total_screen} iterations)")
             if cur is not None:
                 cur["n_screen"] += 1
                 cur["attempts_this_iter"] = 0
